@@ -1171,7 +1171,9 @@ pub fn selftest_determinism(seeds: u64, runs_per_seed: u64) -> i32 {
         let info = scen.info();
         ALLOC_ABORT_IS_VIOLATION.store(info.alloc_abort_is_violation, std::sync::atomic::Ordering::Relaxed);
         let known: BTreeSet<String> = load_findings(pid).into_iter().filter(|f| f.status == "known").map(|f| f.signature).collect();
-        let indices: Vec<u64> = (0..runs_per_seed).collect();
+        // half of the sample from the start of the index space (the enumerated prefixes of C04/C16 live there), half from far
+        // beyond any enumerated prefix (seeded plans)
+        let indices: Vec<u64> = (0..runs_per_seed / 2).chain((0..runs_per_seed - runs_per_seed / 2).map(|i| 10_000_000 + i)).collect();
         let mut mism = 0u64;
         for sd in 0..seeds {
             let seed = DEFAULT_SEED ^ (sd.wrapping_mul(0x9E3779B97F4A7C15));
